@@ -62,7 +62,7 @@ def replay(prop, path):
     for tier in ("quick", "thorough"):
         for u in mod.units(tier):
             if u.name == rep["unit"]:
-                rc, out = core.native_replay(u, rep.get("inputs", {}), os.path.join(core.VERIF, "replay"),
+                rc, out = core.native_replay(u, rep.get("inputs", {}), core.REPLAY,
                                              "replay_" + prop)
                 print(out)
                 print("replay exit:", rc)
